@@ -1,5 +1,6 @@
 """Python side of the execdrv protocol: scenario encoding, event decoding, driver lifecycle."""
 import os
+import shutil
 import struct
 import subprocess
 import glob
@@ -196,7 +197,10 @@ class Driver:
     one build do not see each other's snoopy.ini."""
     _n = 0
 
-    def __init__(self, run, build, timeout_ms=20000, extra_preload=(), extra_env=None, san_opts="", binds=(), utmp=None):
+    def __init__(self, run, build, timeout_ms=20000, extra_preload=(), extra_env=None, san_opts="", binds=(), utmp=None, secure=False):
+        # secure: the driver itself is a set-uid-root program started by another user (AT_SECURE: the loader ignores LD_PRELOAD, the C
+        # library's secure_getenv() returns nothing); the libraries come in through an /etc/ld.so.preload of the driver's own namespace
+        self.secure = secure
         # utmp: a generated login-records file that becomes /run/utmp (= /var/run/utmp) inside the driver's mount namespace
         self.utmp = utmp
         # binds: (source, target) pairs bind-mounted inside the driver's private mount namespace: system files with generated content
@@ -259,7 +263,23 @@ class Driver:
             os.close(r_w)
         self.errpath = os.path.join(self.run.dir, "drv-stderr-%d-%d.log" % (os.getpid(), Driver._n))
         import shlex
-        extra = "".join("mount --bind %s %s && " % (shlex.quote(a), shlex.quote(b)) for a, b in getattr(self, "binds", ()))
+        extra = ""
+        prog = os.path.join(BUILD, "execdrv")
+        launch = 'exec "$@"'
+        if getattr(self, "secure", False):
+            base = os.path.join(self.run.dir, "secure-" + os.path.basename(self.out))
+            for sub in ("upper", "work"):
+                os.makedirs(os.path.join(base, sub), exist_ok=True)
+            with open(os.path.join(base, "preload"), "w") as f:
+                f.write("\n".join(self.env["LD_PRELOAD"].split()) + "\n")
+            prog = os.path.join(self.out, "execdrv-setuid")
+            shutil.copy(os.path.join(BUILD, "execdrv"), prog)
+            os.chown(prog, 0, 0)
+            os.chmod(prog, 0o4755)
+            extra += "mount -t overlay overlay -o lowerdir=/etc,upperdir=%s,workdir=%s /etc && cp %s /etc/ld.so.preload && chmod 644 /etc/ld.so.preload && " % (
+                shlex.quote(os.path.join(base, "upper")), shlex.quote(os.path.join(base, "work")), shlex.quote(os.path.join(base, "preload")))
+            launch = 'exec setpriv --reuid 4301 --regid 4301 --clear-groups -- "$@"'
+        extra += "".join("mount --bind %s %s && " % (shlex.quote(a), shlex.quote(b)) for a, b in getattr(self, "binds", ()))
         if getattr(self, "utmp", None):
             extra += "mount -t tmpfs tmpfs /run && cp %s /run/utmp && chmod 644 /run/utmp && " % shlex.quote(self.utmp)
         if "syslog" in self.build["name"]:
@@ -271,8 +291,8 @@ class Driver:
                       "mount --bind /dev/pts %s/pts && mount --bind /dev/shm %s/shm && ln -s %s %s/log && mount --move %s /dev && "
                       % (D, D, D, D, D, D, D, shlex.quote(os.path.join(self.out, "devlog.sock")), D, D))
         cmd = ["unshare", "-m", "--propagation", "private", "sh", "-c",
-               'mount --bind "$1" "$2" && shift 2 && ' + extra + 'exec "$@"', "sh", self.etc, self.run.etc,
-               os.path.join(BUILD, "execdrv")]
+               'mount --bind "$1" "$2" && shift 2 && ' + extra + launch, "sh", self.etc, self.run.etc,
+               prog]
         self.p = subprocess.Popen(cmd, env=self.env, close_fds=False,
                                   preexec_fn=pre,
                                   stdin=subprocess.DEVNULL, stdout=subprocess.DEVNULL,
